@@ -1468,6 +1468,33 @@ def unchecked_advances(f, is_advance, is_remaining, is_eol):
                             facts_.append((b.id, k, terms, a_.get("v")))
             if not t.get("cmp") and any(is_eol_ref(r_) for r_ in (t.get("leafrefs") or t.get("refs") or [])) and (k == 0) != bool(t.get("neg")):
                 facts_.append((b.id, k, ["2"], None))
+            # a test of a bool local that records the comparison (`const bool whole = !(A < n + 2); if (whole)`)
+            cv_ = ((t.get("core") or {}).get("v") or "").split("@")[0]
+            if not t.get("cmp") and cv_:
+                for x in f.events("decl"):
+                    if (x.get("var") or "").split("@")[0] != cv_ or "bool" not in (x.get("ctype") or x.get("type") or ""):
+                        continue
+                    it = re.sub(r"\s+", "", (x.get("init") or {}).get("t") or "")
+                    neg_ = False
+                    while it.startswith("(") and it.endswith(")") and _balanced(it[1:-1]):
+                        it = it[1:-1]
+                    if it.startswith("!(") and it.endswith(")") and _balanced(it[2:-1]):
+                        neg_, it = True, it[2:-1]
+                    mr = re.match(r"^(\w+)(<=|>=|<|>)(.+)$", it)
+                    if not mr:
+                        continue
+                    a_, op_, b_ = mr.group(1), mr.group(2), mr.group(3)
+                    if neg_:
+                        op_ = _NEG[op_]
+                    if a_ not in avail and re.match(r"^\w+$", b_) and b_ in avail:
+                        a_, op_, b_ = b_, _SWAP[op_], a_
+                    truth = (k == 0) != bool(t.get("neg"))
+                    if not truth:
+                        op_ = _NEG[op_]
+                    if a_ in avail and op_ in (">=", ">"):
+                        terms = _sum_terms(b_)
+                        if terms is not None:
+                            facts_.append((b.id, k, terms, a_))
     for c in adv:
         if used(c):
             continue
@@ -1481,6 +1508,33 @@ def unchecked_advances(f, is_advance, is_remaining, is_eol):
                     between = [x for x in adv if x is not c and cfg.ev_dominates(d, dv, x) and any(y is c for y in cfg.events_after(f, x))]
                     if not between:
                         ok, why = True, "skips what remaining() reported (%s)" % av
+        # `advance(enough ? n : A)` with `const bool enough = !(A < n)` (or A >= n; or the arms the other way round under `A < n`)
+        if not ok:
+            mt = re.match(r"^\(?(\w+)\?([^:]+):([^:]+?)\)?$", amt)
+            if mt:
+                cv, t_arm, f_arm = mt.group(1), mt.group(2), mt.group(3)
+                for x in f.events("decl"):
+                    if (x.get("var") or "").split("@")[0] != cv or not cfg.ev_dominates(d, x, c):
+                        continue
+                    it = re.sub(r"\s+", "", (x.get("init") or {}).get("t") or "")
+                    neg_ = False
+                    while it.startswith("(") and it.endswith(")") and _balanced(it[1:-1]):
+                        it = it[1:-1]
+                    if it.startswith("!(") and it.endswith(")") and _balanced(it[2:-1]):
+                        neg_, it = True, it[2:-1]
+                    mr = re.match(r"^(\w+)(<=|>=|<|>)(.+)$", it)
+                    if not mr:
+                        continue
+                    a_, op_, b_ = mr.group(1), mr.group(2), mr.group(3)
+                    if neg_:
+                        op_ = _NEG[op_]
+                    if a_ not in avail and b_ in avail:
+                        a_, op_, b_ = b_, _SWAP[op_], a_
+                    if a_ not in avail:
+                        continue
+                    enough_arm, short_arm = (t_arm, f_arm) if op_ in (">=", ">") else (f_arm, t_arm)
+                    if enough_arm == b_ and (short_arm == a_ or re.match(r"^std::min(<[^>]*>)?\(", short_arm)):
+                        ok, why = True, "skips %s when %s %s %s, otherwise what is there" % (b_, a_, op_ if op_ in (">=", ">") else _NEG[op_], b_)
         # a local that is itself min(A, ..)
         if not ok:
             for x in f.events("decl"):
